@@ -57,7 +57,10 @@ pub fn mk_dt_route(instant: i128, route: u8) -> DateTime {
     let day = instant.div_euclid(tl::DAY_NS);
     let tod = instant.rem_euclid(tl::DAY_NS);
     let fits = |i: i128| tl::representable(i);
-    match route % 8 {
+    match route % 10 {
+        // conversions: a Date turned into a DateTime is that day's midnight at offset 0
+        8 => DateTime::from(mk_date(day as i64)).set_time(Time::from_nanos(tod as u64).unwrap()),
+        9 => DateTime::from(&mk_date(day as i64)) + Time::from_nanos(tod as u64).unwrap(),
         1 if fits(instant - tod) => mk_dt(instant - tod) + Time::from_nanos(tod as u64).unwrap(),
         2 if fits(instant - tl::DAY_NS) && fits(instant - tod) => {
             // (previous day, same tod) + Time that carries it exactly to the target
@@ -80,8 +83,8 @@ pub fn mk_dt_route(instant: i128, route: u8) -> DateTime {
 
 /// `mk_dt_off` through a route
 pub fn mk_dt_off_route(instant: i128, offset: i32, route: u8) -> DateTime {
-    if route % 16 < 8 {
-        mk_dt_route(instant, route).set_offset(Offset::Fixed(offset))
+    if route % 20 < 10 {
+        mk_dt_route(instant, route % 20).set_offset(Offset::Fixed(offset))
     } else {
         mk_dt_off(instant, offset)
     }
@@ -94,8 +97,8 @@ pub fn mk_dt_off_route(instant: i128, offset: i32, route: u8) -> DateTime {
 /// set of *representations* the public API can produce for one instant.
 pub fn mk_dt_off_any(instant: i128, offset: i32) -> DateTime {
     let h = (instant as u64) ^ ((instant >> 37) as u64) ^ (offset as u32 as u64).wrapping_mul(0x9E37_79B9);
-    let route = (h % 16) as u8;
-    if route >= 8 {
+    let route = (h % 20) as u8;
+    if route >= 10 {
         return mk_dt_off(instant, offset);
     }
     let built = std::panic::catch_unwind(|| {
@@ -147,6 +150,15 @@ pub fn canonical_dt(dt: &DateTime) -> Result<(), String> {
     let t = Time::from(z);
     if t.as_nanos() as i128 != f.day_ns as i128 {
         return Err(format!("Time::from(value at offset 0).as_nanos() = {}, instant has {}", t.as_nanos(), f.day_ns));
+    }
+    // conversions read the stored day / time of day in yet another way
+    let d = astrolabe::Date::from(z);
+    if rd_date(&d) != f.day || rd_date(&astrolabe::Date::from(&z)) != f.day {
+        return Err(format!("Date::from(value at offset 0) is day {}, instant is on day {}", rd_date(&d), f.day));
+    }
+    let back = DateTime::from(d);
+    if rd_dt(&back) != f.day as i128 * tl::DAY_NS || back.as_hms() != (0, 0, 0) {
+        return Err(format!("DateTime::from(Date::from(value)) = {}, want midnight of day {}", fmt_instant(rd_dt(&back)), f.day));
     }
     // no observer may tell the value from a freshly constructed one denoting the same instant:
     // calendar differences against day-aligned references and a date setter read the stored
